@@ -192,3 +192,65 @@ impl Family for FBadNames {
         root
     }
 }
+
+/// Modules whose names merely contain the text `super` (`mysuper`, `superb`, `super_x`, `xsuper`):
+/// `super.` walks up only as a complete leading path segment.
+pub struct FSuperLike;
+
+impl FSuperLike {
+    const NAMES: [&'static str; 5] = ["mysuper", "superb", "super_x", "xsuper", "supersuper"];
+}
+
+impl Family for FSuperLike {
+    fn name(&self) -> &'static str {
+        "F-superlike"
+    }
+    fn len(&self) -> u64 {
+        Self::NAMES.len() as u64 * 4 * 3
+    }
+    fn case(&self, idx: u64) -> Module {
+        let name = Self::NAMES[(idx % 5) as usize];
+        let form = (idx / 5) % 4;
+        let site = idx / 20;
+        let mut m = Module::default();
+        m.functions.push(("foo".into(), tagged(&format!("{name}.foo"))));
+        let mut inner = Module::default();
+        inner.functions.push(("bar".into(), tagged(&format!("{name}.in.bar"))));
+        m.submodules.push(("in".into(), inner));
+        // how the caller names the function
+        let (imports, called): (Vec<String>, String) = match (form, site) {
+            (0, _) => (vec![], format!("{name}.foo")),                              // absolute path
+            (1, 0) => (vec![format!("{name}.foo")], "foo".to_string()),             // function import
+            (1, _) => (vec![format!("super.{name}.foo")], "foo".to_string()),
+            (2, 0) => (vec![name.to_string()], format!("{name}.foo")),              // module import
+            (2, _) => (vec![format!("super.{name}")], format!("{name}.foo")),
+            (_, 0) => (vec![format!("{name}.in")], "in.bar".to_string()),            // nested module import
+            (_, _) => (vec![format!("super.{name}.in")], "in.bar".to_string()),
+        };
+        let caller = func(&[], vec![sg("got", call(&called, vec![]))]);
+        let mut root = Module::default();
+        match site {
+            0 => {
+                root.imports = imports;
+                root.functions.push(("main".into(), caller));
+            }
+            1 => {
+                let mut a = Module::default();
+                a.imports = imports;
+                a.functions.push(("caller".into(), caller));
+                root.submodules.push(("a".into(), a));
+                root.functions.push(("main".into(), func(&[], vec![call("a.caller", vec![])])));
+            }
+            _ => {
+                // the caller lives in a module whose own name contains `super`
+                let mut a = Module::default();
+                a.imports = imports;
+                a.functions.push(("caller".into(), caller));
+                root.submodules.push(("superduper".into(), a));
+                root.functions.push(("main".into(), func(&[], vec![call("superduper.caller", vec![])])));
+            }
+        }
+        root.submodules.push((name.into(), m));
+        root
+    }
+}
